@@ -169,6 +169,14 @@ one binary64 division, one binary64 multiplication, truncation. -/
 /-- with Lean's own IEEE binary64 (`decide +kernel` evaluates it) -/
 def ebsFloat (N L : Nat) : Nat := (N.toFloat * ((1.0 : Float) / L.toFloat)).toUInt64.toNat
 
+/-- `len(DPDataLoader)` for Poisson sampling: `int(1 / (1 / len(data_loader)))` -/
+def stepsFloat (L : Nat) : Nat := ((1.0 : Float) / ((1.0 : Float) / L.toFloat)).toUInt64.toNat
+
+/-- `expected_batch_size` as `make_private` computes it from the dataset size `N` and the length
+`L` of the user's loader: with Poisson sampling the loader is first replaced by a `DPDataLoader`
+whose own length is `stepsFloat L` -/
+def engineEbs (N L : Nat) (poisson : Bool) : Nat := ebsFloat N (if poisson then stepsFloat L else L)
+
 /-- a positive binary64 value `m · 2^e`, `2^52 ≤ m < 2^53` -/
 structure B64 where
   m : Nat
@@ -199,10 +207,10 @@ def ebsExact (N L : Nat) : Nat :=
   let s := rne p q
   if s.e ≥ 0 then s.m * 2 ^ s.e.toNat else s.m / 2 ^ (-s.e).toNat
 
-/-- where the coded value differs from `⌊N/L⌋` among the exact multiples `N = j·L` -/
-def ebsMismatches (maxL maxJ : Nat) : List (Nat × Nat) :=
+/-- where `f N L` differs from `⌊N/L⌋` among the exact multiples `N = j·L` -/
+def ebsMismatchesOf (f : Nat → Nat → Nat) (maxL maxJ : Nat) : List (Nat × Nat) :=
   (List.range (maxL + 1)).flatMap fun L =>
-    ((List.range (maxJ + 1)).filter fun j => L ≥ 1 ∧ j ≥ 1 ∧ ebsFloat (j * L) L ≠ j).map
+    ((List.range (maxJ + 1)).filter fun j => L ≥ 1 ∧ j ≥ 1 ∧ f (j * L) L ≠ j).map
       fun j => (j * L, L)
 
 end Opacus.Step
